@@ -2,7 +2,7 @@
    ExtrOcamlBasic only: bool, option, list, prod, unit, sumbool, sumor map to
    OCaml's; N, Z, positive, nat stay the extracted inductives. *)
 Require Import ExtrOcamlBasic.
-From BMC Require Import Base Prim Layers Layers2 SpecLayers Hmac Aes Dispatch.
+From BMC Require Import Base Prim Layers Layers2 SpecLayers Hmac Aes Serialize SpecRequests Packet Conn Handshake SpecBmc Dispatch.
 Extraction Language OCaml.
 Extraction "model.ml"
   Impl.bcd_decode Impl.ones Impl.twos Impl.analog_parser Impl.checksum
@@ -14,7 +14,12 @@ Extraction "model.ml"
   SpecEnc.setpriv SpecEnc.guid SpecEnc.reserve SpecEnc.getsdrrsp SpecEnc.sdrhdr SpecEnc.sdrrepoinfo SpecEnc.sensorreading
   SpecEnc.fsr SpecEnc.opensessionrsp SpecEnc.rakp2 SpecEnc.rakp4 SpecEnc.dcmicaps SpecEnc.dcmimand SpecEnc.dcmiopt
   SpecEnc.dcmimgmt SpecEnc.dcmipower SpecEnc.powerreading SpecEnc.dcmisensor
-  cbc_encrypt cbc_decrypt run_decode aes_dec aes_enc integrity_sign hmac_alg auth_params
+  mk_session mk_active outcome_code spec_sessionless spec_setup show_request show_lanreq
+  sessionless_send session_send new_session determine SpecParse.request_body SpecParse.wf_request SpecParse.kind_of
+  SpecParse.open_session_request SpecParse.rakp_message_1 SpecParse.rakp_message_3 SpecParse.command_code SpecParse.command_kind
+  Bmc.accept Bmc.open_session Bmc.rakp1 Bmc.rakp3 ser_request ser_opensessionreq ser_rakp1 ser_rakp3 ser_message ser_v2session ser_v1session ser_aescbc ser_rmcp
+  sessionless_command_packet payload_packet session_command_packet receive
+  put_le32 cbc_encrypt cbc_decrypt run_decode aes_dec aes_enc integrity_sign hmac_alg auth_params
   decode_rmcp rmcp_zero show_rmcp decode_selector selector_zero show_selector
   decode_v1session v1session_zero show_v1session decode_message message_zero show_message
   decode_opensessionrsp opensessionrsp_zero show_opensessionrsp
